@@ -1125,6 +1125,11 @@ func streamRespMut(seed uint64, thorough bool) {
 				variants = append(variants, t)
 			}
 		}
+		// bytes behind the frame with the header left as it was (a buffer that already holds the
+		// beginning of the next packet): the frame's length no longer agrees with its count
+		for _, k := range []int{1, 2, 3, 7} {
+			variants = append(variants, append(append([]byte(nil), f.bytes...), r.bytes(k)...))
+		}
 		// high bit at the function position
 		t := append([]byte(nil), f.bytes...)
 		t[fcOff] |= 0x80
